@@ -14,7 +14,7 @@ class Case:
         self.timeout = timeout; self.meta = dict(meta or {}); self.witness = witness; self.tv = tv; self.mem_gb = mem_gb
         self.extra = list(extra); self.tv_seeds = tv_seeds; self.native_defs = list(native_defs); self.replay_san = replay_san
         self.witness_timeout = witness_timeout or timeout; self.object_bits = object_bits; self.cbmc = True
-        self.fixture_b = None; self.cover = False
+        self.fixture_b = None; self.cover = False; self.mem_est = 2
     def fx_defs(self):
         fx = self.fixture
         if self.fixture_b is not None:
@@ -23,9 +23,11 @@ class Case:
         return ['VF_FIXTURE="%s"' % fx['c'], 'VF_TYPES="%s"' % fx['types']]
     def query(self, extra_defs=(), suffix='', expect='holds', witness_of=None, timeout=None):
         m = dict(self.meta); m.update(case=self.name, fixture=self.fixture['name'], defs=self.defs + list(extra_defs))
-        return Query(self.name + suffix, self.harness, self.fx_defs() + self.defs + list(extra_defs), self.unwind, self.unwindset,
-                     self.checks, timeout or self.timeout, self.solvers, expect, m, [os.path.join(VERIF, 'harness')], self.extra,
-                     witness_of, self.mem_gb, self.object_bits)
+        q = Query(self.name + suffix, self.harness, self.fx_defs() + self.defs + list(extra_defs), self.unwind, self.unwindset,
+                  self.checks, timeout or self.timeout, self.solvers, expect, m, [os.path.join(VERIF, 'harness')], self.extra,
+                  witness_of, self.mem_gb, self.object_bits)
+        q.mem_est = self.mem_est
+        return q
 
 def _safe(n): return re.sub(r'[^A-Za-z0-9_.-]', '_', n)
 
